@@ -24,7 +24,7 @@ RULE = (
     "script; scripts = all well-nested sequences up to length L over {enter (sync scope [A], "
     "update [A, A'], async scope [A], update [R]), exit, use a shared prepared update}; sub-families: updates whose "
     "states are value-equal across tasks ([A, R] together / [A] alone), and an update supplying the very instance the "
-    "shared prepared update supplies; probe after every step; every interleaving; "
+    "shared prepared update supplies; probe after every step and inside every scope's completion handler (sees the declaration position); every interleaving; "
     "non-trivial = two tasks are alive at the same time and at least one of them enters a block "
     "after the other was started"
 )
@@ -250,12 +250,20 @@ def execute(program, ch: Chooser) -> Result:  # noqa: C901, PLR0915
                     cm, states = prepared["cm"], prepared["states"]
                     cm.__enter__()
                     kind = "sscope"
-                elif kind == "sscope":
-                    cm = ctx.scope(label, *states)
-                    cm.__enter__()
-                elif kind == "ascope":
-                    cm = ctx.scope(label, *states)
-                    await cm.__aenter__()
+                elif kind in ("sscope", "ascope"):
+                    # the completion handler of a scope runs where the scope was declared: it sees
+                    # the state visible at that position (not the state of whichever task happens to
+                    # complete the scope, nor the scope's own)
+                    decl_env, decl_in_scope, decl_soft = [dict(lv) for lv in env], in_scope, soft
+
+                    def on_completion(_metrics, _tid=tid, _env=decl_env, _in=decl_in_scope, _soft=decl_soft, _label=label):
+                        probe(_tid, _env, _in, _soft, f"completion-of-{_label}")
+
+                    cm = ctx.scope(label, *states, completion=on_completion)
+                    if kind == "sscope":
+                        cm.__enter__()
+                    else:
+                        await cm.__aenter__()
                 else:
                     cm = ctx.updated(*states)
                     cm.__enter__()
